@@ -237,6 +237,38 @@ int main() {
       std::istringstream is(std::string(t) + " 77"); if (base == 0) is.unsetf(std::ios::basefield); mpq_class x; is >> x;
       if (rc == 0) CHECK("istream_mpq_vs_set_str", !is.fail() && mpq_equal(x.get_mpq_t(), cq)); mpq_clear(cq); }
   }
+  // extraction into targets that already hold large values: every field of the target must be rewritten
+  { mpz_class bigd; mpz_ui_pow_ui(bigd.get_mpz_t(), 2, 65); bigd += 3;
+    static const char *QT2[] = {"7", "-7", "3/4", "0", "12/1", "0x10"};
+    for (const char *t : QT2) for (int pre = 0; pre < 3; pre++) {
+      int base = (t[0] == '0' && t[1] == 'x') ? 0 : 10;
+      mpq_t cq; mpq_init(cq); mpq_set_str(cq, t, base);
+      mpq_class x; if (pre == 1) { x.get_num() = 5; x.get_den() = bigd; } if (pre == 2) { x.get_num() = -bigd * bigd; x.get_den() = bigd * bigd + 2; }
+      std::istringstream is(t); if (base == 0) is.unsetf(std::ios::basefield); is >> x;
+      CHECK("istream_mpq_into_used_target", !is.fail() && mpq_equal(x.get_mpq_t(), cq) && mpz_cmp(x.get_den_mpz_t(), mpq_denref(cq)) == 0 && mpz_cmp(x.get_num_mpz_t(), mpq_numref(cq)) == 0);
+      mpq_class y = x + 1; mpq_t cy; mpq_init(cy); mpq_set_ui(cy, 1, 1); mpq_add(cy, cq, cy); CHECK("mpq_after_extraction_usable", mpq_equal(y.get_mpq_t(), cy));
+      mpq_clear(cq); mpq_clear(cy);
+      mpz_class z = pre ? -bigd * bigd * bigd : mpz_class(0); std::istringstream iz("12345 "); iz >> z; CHECK("istream_mpz_into_used_target", z == 12345);
+      mpf_class f(0, 256); if (pre) f = mpf_class(bigd) * mpf_class(bigd); std::istringstream if_("2.5 "); if_ >> f; CHECK("istream_mpf_into_used_target", f == 2.5);
+    }
+  }
+  // fixed-point output of floats in bases 16 (both cases), 8 and 10 with the precision cutting digits off: against exact integer rounding
+  { struct { unsigned long m; int k; } HV[] = {{0xABCD, 2}, {0x1F8, 2}, {0x1AF9, 3}, {0xFFFF, 2}, {0x9999, 3}, {0xA5A5A5, 4}, {0xBEEF, 1}, {0xFEDCBA, 5}, {0x10F, 2}, {0xEF, 2}, {0xFFF, 3}};
+    for (auto hv : HV) for (int p = 0; p < hv.k; p++) for (int mode = 0; mode < 4; mode++) {
+      int B = mode < 2 ? 16 : (mode == 2 ? 8 : 10);
+      // value = m / B^k exactly
+      mpz_class Bk; mpz_ui_pow_ui(Bk.get_mpz_t(), B, hv.k); mpz_class Bp; mpz_ui_pow_ui(Bp.get_mpz_t(), B, p);
+      mpf_class f(0, 256); f = mpf_class(mpz_class(hv.m), 256) / mpf_class(Bk, 256);
+      mpz_class num = mpz_class(hv.m) * Bp * 2 + Bk, den = Bk * 2, n = num / den;
+      if (num % den == 0) continue;                                       // an exact tie: rounding direction is not asserted
+      std::string ds = n.get_str(mode == 1 ? -16 : B); while ((int) ds.size() < p + 1) ds = "0" + ds;
+      std::string expct = p ? ds.substr(0, ds.size() - p) + "." + ds.substr(ds.size() - p) : ds;
+      std::ostringstream os; os << std::fixed << std::setprecision(p);
+      if (mode == 0) os << std::hex; if (mode == 1) os << std::hex << std::uppercase; if (mode == 2) os << std::oct;
+      os << f;
+      CHECK(mode == 0 ? "ostream_mpf_fixed_hex" : mode == 1 ? "ostream_mpf_fixed_HEX" : mode == 2 ? "ostream_mpf_fixed_oct" : "ostream_mpf_fixed_dec", os.str() == expct);
+    }
+  }
   // conversions between the classes and swap
   { mpz_class z("123456789012345678901234567890"); mpq_class q(z); mpf_class f(z, 256); CHECK("conv", q.get_num() == z && q.get_den() == 1 && mpz_class(f) == z);
     mpz_class a(5), b(-7); swap(a, b); CHECK("swap", a == -7 && b == 5); mpq_class x(1, 2), y(3); swap(x, y); CHECK("qswap", x == 3 && y == mpq_class(1, 2)); }
